@@ -9,7 +9,7 @@ use std::collections::BTreeMap;
 use roto::{Constant, Function, Impl, Library, NoCtx, Package, Runtime, Type, TypedFunc, Val, location};
 
 use crate::core::*;
-use crate::host::{self, Tr};
+use crate::host::{self, Tr, Tz};
 
 pub struct C11P;
 pub static C11: C11P = C11P;
@@ -26,8 +26,22 @@ fn live_by_tag() -> BTreeMap<i32, usize> {
     })
 }
 
+/// closures made by one factory have one Rust type but different captured state
+fn tagged_closure(tag: i32) -> impl Fn() -> i32 + Send + Sync + 'static {
+    let cap = Tr::new(tag);
+    move || -> i32 {
+        let c: &Tr = &cap;
+        c.touch("captured by a factory-made closure");
+        c.tag as i32
+    }
+}
+
 fn build_runtime(k: i32) -> Runtime<NoCtx> {
     let mut lib = Library::new();
+    lib.add(Type::clone::<Val<Tz>>("Tz", "", location!()).unwrap().into());
+    lib.add(Function::new("mkz", "", vec![], || -> Val<Tz> { Val(Tz::new()) }, location!()).unwrap().into());
+    lib.add(Function::new("host_a", "", vec![], tagged_closure(500 + k), location!()).unwrap().into());
+    lib.add(Function::new("host_b", "", vec![], tagged_closure(600 + k), location!()).unwrap().into());
     lib.add(Type::clone::<Val<Tr>>("Tr", "", location!()).unwrap().into());
     lib.add(Function::new("mk", "", vec!["k"], |k: i32| -> Val<Tr> { Val(Tr::new(k)) }, location!()).unwrap().into());
     let mut im = Impl::new::<Val<Tr>>(location!());
@@ -59,7 +73,7 @@ fn build_runtime(k: i32) -> Runtime<NoCtx> {
 
 fn script(v: i32) -> String {
     format!(
-        "const K: Tr = mk({});\nfn f(x: i32) -> i32 {{\n    x * {v} + K.tag() + REG.tag() + host()\n}}\nfn other(x: i32) -> i32 {{\n    K.tag() - x\n}}\n",
+        "const K: Tr = mk({});\nconst Z: Tz = mkz();\nfn f(x: i32) -> i32 {{\n    x * {v} + K.tag() + REG.tag() + host() + host_a() - host_b()\n}}\nfn other(x: i32) -> i32 {{\n    K.tag() - x\n}}\n",
         300 + v
     )
 }
@@ -89,6 +103,7 @@ impl WorkerState for W {
     fn run(&mut self, case: &Case, render: bool) -> Outcome {
         host::reset(vec![]);
         let base = live_by_tag();
+        let base_tz = host::live_count().1;
         let mut st = St { runtimes: vec![], packages: vec![], handles: vec![], pkg_info: vec![], rt_info: vec![] };
         let mut trace: Vec<String> = Vec::new();
         let mut call_after_drop = false;
@@ -163,7 +178,7 @@ impl WorkerState for W {
                         let (r, v) = st.pkg_info[*p];
                         let k = st.rt_info[r];
                         let x = (b as i32) - 100;
-                        let want = if *w == 0 { x.wrapping_mul(v).wrapping_add(300 + v).wrapping_add(100 + k).wrapping_add(200 + k) } else { (300 + v).wrapping_sub(x) };
+                        let want = if *w == 0 { x.wrapping_mul(v).wrapping_add(300 + v).wrapping_add(100 + k).wrapping_add(200 + k).wrapping_sub(100) } else { (300 + v).wrapping_sub(x) };
                         eprintln!("@@ctx call-handle");
                         let got = hh.call(x);
                         trace.push(format!("h{h}.call({x}) = {got}"));
@@ -199,7 +214,7 @@ impl WorkerState for W {
                         let (hh, p, w) = st.handles[h].take().unwrap();
                         let (r, v) = st.pkg_info[p];
                         let k = st.rt_info[r];
-                        let want = if w == 0 { 7i32.wrapping_mul(v).wrapping_add(300 + v).wrapping_add(100 + k).wrapping_add(200 + k) } else { (300 + v).wrapping_sub(7) };
+                        let want = if w == 0 { 7i32.wrapping_mul(v).wrapping_add(300 + v).wrapping_add(100 + k).wrapping_add(200 + k).wrapping_sub(100) } else { (300 + v).wrapping_sub(7) };
                         // the other thread has its own (empty) tracking state: report drops back
                         let got = std::thread::spawn(move || {
                             let r = hh.call(7);
@@ -224,7 +239,7 @@ impl WorkerState for W {
                 let referred = st.runtimes[ri].is_some()
                     || st.packages.iter().flatten().any(|(_, r, _)| *r == ri)
                     || st.handles.iter().flatten().any(|(_, p, _)| st.pkg_info[*p].0 == ri);
-                for tag in [100 + k, 200 + k] {
+                for tag in [100 + k, 200 + k, 500 + k, 600 + k] {
                     // values dropped on another thread are not visible in this thread's live set;
                     // that only happens when the last referrer was a handle dropped there (then nothing refers to them any more)
                     if referred && count(tag) == 0 {
@@ -243,6 +258,13 @@ impl WorkerState for W {
                     return fail("not-released", format!("script constant with tag {tag} is still alive although every package and handle of that version is gone"), &trace);
                 }
             }
+            // the zero-sized script constant Z lives once per compiled package that is still referred to
+            let z_expected = (0..st.pkg_info.len()).filter(|pi| st.packages[*pi].is_some() || st.handles.iter().flatten().any(|(_, p, _)| p == pi)).count() as i64;
+            let z_now = host::live_count().1 - base_tz;
+            if z_now != z_expected {
+                let sig = if z_now > z_expected { "not-released" } else { "released-too-early" };
+                return fail(sig, format!("{z_now} values of the zero-sized constant `Z: Tz` are alive, {z_expected} packages are still referred to"), &trace);
+            }
             let anomalies = host::anomalies();
             if !anomalies.is_empty() {
                 return fail("ownership", format!("{anomalies:?}"), &trace);
@@ -252,6 +274,9 @@ impl WorkerState for W {
         st.handles.clear();
         st.packages.clear();
         st.runtimes.clear();
+        if host::live_count().1 != base_tz {
+            return fail("not-released", format!("after dropping every runtime, package and handle {} zero-sized constant values are still alive", host::live_count().1 - base_tz), &trace);
+        }
         let end = live_by_tag();
         if end != base {
             let extra: Vec<_> = end.iter().filter(|(t, n)| base.get(t).copied().unwrap_or(0) != **n).collect();
@@ -285,7 +310,7 @@ impl Prop for C11P {
         "C11"
     }
     fn rule(&self) -> String {
-        "histories of up to 40 operations (one proptest chunk each): build runtime k (registers a drop-tracked constant, a closure capturing a tracked value that scripts call, and a closure no script uses), compile script version v on a live runtime (script constant holding a tracked value; f(x) = x*v + K + REG + host()), get handle, clone handle, call, drop handle / package / runtime, move a handle to another thread, call and drop it there; oracle after every step: each call returns the model's value for its version and runtime; per tag, tracked values are alive while a runtime, package or handle refers to them, script constants are released as soon as nothing refers to their version, nothing is dropped twice, and after dropping everything the live set equals the initial one. Non-trivial: a call happens after the package and/or runtime that produced the handle were dropped, or the same script version was compiled more than once; distinct by decoded history".into()
+        "histories of up to 40 operations (one proptest chunk each): build runtime k (registers a drop-tracked constant, a closure capturing a tracked value that scripts call, two closures made by one factory (same Rust type, different captured tracked values) that scripts call, and a closure no script uses), compile script version v on a live runtime (script constants holding a tracked value and a zero-sized drop-counted value that is never read; f(x) = x*v + K + REG + host() + host_a() - host_b()), get handle, clone handle, call, drop handle / package / runtime, move a handle to another thread, call and drop it there; oracle after every step: each call returns the model's value for its version and runtime; per tag, tracked values are alive while a runtime, package or handle refers to them, script constants are released as soon as nothing refers to their version, nothing is dropped twice, and after dropping everything the live set equals the initial one. Non-trivial: a call happens after the package and/or runtime that produced the handle were dropped, or the same script version was compiled more than once; distinct by decoded history".into()
     }
     fn assumptions(&self) -> Vec<String> {
         vec![
